@@ -479,12 +479,20 @@ func filterFloatformat(in *Value, param *Value) (*Value, *Error) {
 }
 
 func filterGetdigit(in *Value, param *Value) (*Value, *Error) {
+	s := in.String()
+	for _, c := range s {
+		if c < '0' || c > '9' {
+			// not a whole number: invalid input is returned as it is
+			return in, nil
+		}
+	}
+	// s consists of ASCII digits only, i. e. one byte per character
 	i := param.Integer()
-	l := len(in.String()) // do NOT use in.Len() here!
+	l := len(s)
 	if i <= 0 || i > l {
 		return in, nil
 	}
-	return AsValue(in.String()[l-i] - 48), nil
+	return AsValue(s[l-i] - '0'), nil
 }
 
 const filterIRIChars = "/#%[]=:;$&()+,!?*@'~"
